@@ -7,11 +7,13 @@ package main
 
 import (
 	"bufio"
+	"context"
 	"flag"
 	"fmt"
 	"hash/crc32"
 	"hash/fnv"
 	"math/rand"
+	"net"
 	"os"
 	"runtime"
 	"sort"
@@ -21,6 +23,9 @@ import (
 	"time"
 
 	kafka "github.com/segmentio/kafka-go"
+	"github.com/segmentio/kafka-go/protocol"
+	"github.com/segmentio/kafka-go/protocol/metadata"
+	"github.com/segmentio/kafka-go/protocol/produce"
 	"kverif/kvfmt"
 )
 
@@ -248,6 +253,135 @@ func hashConc(r *rand.Rand, scale float64) {
 		emit("hashconc", fmt.Sprintf("%s %x %x", bl.name, nparts, g), res, fmt.Sprintf("default-hasher,concurrent,g=%d,calls>=%d", g, calls/1000*1000))
 	}
 	runtime.GOMAXPROCS(procs)
+}
+
+// wrt: the balancers as the Writer calls them.  A RoundTripper answers Metadata (topic "t", n
+// partitions led by broker 1) and Produce, and records the partition of every produce request;
+// a Writer WITHOUT a Balancer (the default round-robin), or with RoundRobin{ChunkSize}, writes
+// messages over several WriteMessages calls; the partitions the messages reached, in order of
+// the calls, must be the model's round-robin sequence over 0..n-1 — across calls, not only
+// within one call.
+type wrtRT struct {
+	mu    sync.Mutex
+	n     int
+	parts []int
+}
+
+func (f *wrtRT) RoundTrip(ctx context.Context, addr net.Addr, req protocol.Message) (protocol.Message, error) {
+	switch r := req.(type) {
+	case *metadata.Request:
+		ps := make([]metadata.ResponsePartition, f.n)
+		for i := range ps {
+			ps[i] = metadata.ResponsePartition{PartitionIndex: int32(i), LeaderID: 1, ReplicaNodes: []int32{1}, IsrNodes: []int32{1}}
+		}
+		return &metadata.Response{
+			Brokers:      []metadata.ResponseBroker{{NodeID: 1, Host: "broker.test", Port: 9092}},
+			ControllerID: 1,
+			Topics:       []metadata.ResponseTopic{{Name: "t", Partitions: ps}},
+		}, nil
+	case *produce.Request:
+		res := &produce.Response{}
+		f.mu.Lock()
+		for _, t := range r.Topics {
+			rt := produce.ResponseTopic{Topic: t.Topic}
+			for _, p := range t.Partitions {
+				n := 0
+				if p.RecordSet.Records != nil {
+					for {
+						rec, err := p.RecordSet.Records.ReadRecord()
+						if err != nil {
+							break
+						}
+						if rec.Key != nil {
+							rec.Key.Close()
+						}
+						if rec.Value != nil {
+							rec.Value.Close()
+						}
+						n++
+					}
+				}
+				for i := 0; i < n; i++ {
+					f.parts = append(f.parts, int(p.Partition))
+				}
+				rt.Partitions = append(rt.Partitions, produce.ResponsePartition{Partition: p.Partition})
+			}
+			res.Topics = append(res.Topics, rt)
+		}
+		f.mu.Unlock()
+		return res, nil
+	}
+	return nil, fmt.Errorf("wrt: unexpected request %T", req)
+}
+
+func writerCases(r *rand.Rand, count int) {
+	for i := 0; i < count; i++ {
+		n := 1 + r.Intn(6)
+		chunk := 0
+		if r.Intn(2) == 0 {
+			chunk = 1 + r.Intn(3)
+		}
+		rt := &wrtRT{n: n}
+		w := &kafka.Writer{Addr: kafka.TCP("broker.test:9092"), Topic: "t", Transport: rt, BatchSize: 1, BatchTimeout: time.Millisecond, MaxAttempts: 1}
+		if chunk > 0 {
+			w.Balancer = &kafka.RoundRobin{ChunkSize: chunk}
+		}
+		calls := 2 + r.Intn(6)
+		total := 0
+		res := "ok"
+		var sizes []string
+		for c := 0; c < calls; c++ {
+			k := 1
+			if r.Intn(3) == 0 {
+				k = 1 + r.Intn(3)
+			}
+			msgs := make([]kafka.Message, k)
+			for j := range msgs {
+				msgs[j] = kafka.Message{Value: []byte{byte(total + j)}}
+			}
+			ctx, cancel := context.WithTimeout(context.Background(), 5*time.Second)
+			err := w.WriteMessages(ctx, msgs...)
+			cancel()
+			if err != nil {
+				res = "ERR:" + strings.ReplaceAll(err.Error(), " ", "_")
+				break
+			}
+			total += k
+			sizes = append(sizes, fmt.Sprintf("%x", k))
+		}
+		w.Close()
+		rt.mu.Lock()
+		got := append([]int(nil), rt.parts...)
+		rt.mu.Unlock()
+		if res == "ok" {
+			// BatchSize 1 and synchronous calls: requests arrive in message order, except that the
+			// messages of ONE call that go to different partitions are produced concurrently —
+			// compare per call as multisets, across calls in order
+			var toks []string
+			pos := 0
+			for _, sz := range sizes {
+				var k int
+				fmt.Sscanf(sz, "%x", &k)
+				seg := append([]int(nil), got[pos:min(pos+k, len(got))]...)
+				sort.Ints(seg)
+				toks = append(toks, kvfmt.Ints(seg))
+				pos += k
+			}
+			res = strings.Join(toks, ";")
+		}
+		cfg := "default"
+		if chunk > 0 {
+			cfg = fmt.Sprintf("%x", chunk)
+		}
+		emit("wrt", fmt.Sprintf("%s %x %s", cfg, n, strings.Join(sizes, ",")), res, fmt.Sprintf("writer,calls=%d,%s", calls, map[bool]string{true: "default-balancer", false: "roundrobin-chunk"}[chunk == 0]))
+	}
+}
+
+func min(a, b int) int {
+	if a < b {
+		return a
+	}
+	return b
 }
 
 func main() {
@@ -563,6 +697,7 @@ func main() {
 		emit("lbconc", fmt.Sprintf("%x %x %x", 10, n, g*per), kvfmt.Ints(cntLB), fmt.Sprintf("g=%d", g))
 	}
 	hashConc(r, 1)
+	writerCases(r, 24)
 	// The list the Writer offers to its balancer (writer.go loadCachedPartitions): it must be
 	// 0..n-1 for every caller, also while another caller grows the process-wide cache.  The
 	// counts grow from call to call so that every round contains growth events.
